@@ -5,6 +5,9 @@ use noodles_csi::binning_index::index::reference_sequence::{Bin, Metadata};
 
 use crate::io::reader::num::{read_i32_le, read_u32_le};
 
+// The count comes from the input: use it as a capacity hint only up to this bound.
+const MAX_PREALLOCATED_LEN: usize = 1 << 16;
+
 pub(super) fn read_bins<R>(reader: &mut R) -> io::Result<(IndexMap<usize, Bin>, Option<Metadata>)>
 where
     R: Read,
@@ -17,7 +20,7 @@ where
 
     let bin_count = read_bin_count(reader)?;
 
-    let mut bins = IndexMap::with_capacity(bin_count);
+    let mut bins = IndexMap::with_capacity(bin_count.min(MAX_PREALLOCATED_LEN));
     let mut metadata = None;
 
     for _ in 0..bin_count {
